@@ -440,6 +440,7 @@ func main() {
 	res := fs.String("res", "", "result file of the test driver")
 	bin := fs.String("bin", "", "mp4ff-crop binary")
 	tmp := fs.String("tmp", "", "scratch directory")
+	caseFiles := fs.Int("casefiles", 0, "files: emit tool case lines for the first N files only (0 = all)")
 	_ = fs.Parse(os.Args[2:])
 	switch os.Args[1] {
 	case "gen":
@@ -449,7 +450,7 @@ func main() {
 	case "search":
 		search(*cases, *res)
 	case "files":
-		files(*seed, *n, *bin, *tmp, *o)
+		files(*seed, *n, *bin, *tmp, *o, *caseFiles)
 	default:
 		os.Exit(2)
 	}
